@@ -558,11 +558,12 @@ fn named_tag_laws(local_run: &mut Run) {
         if i > j {
             return;
         }
-        for (vi, v) in vals.iter().enumerate() {
+        for (vi, same_kind) in (0..vals.len()).flat_map(|vi| [(vi, true), (vi, false)]) {
+            let v = &vals[vi];
             let mk = |other: V| {
                 let mut t = vec![(names[i].as_str(), v.clone()), ("zq9", other)];
                 if i != j {
-                    t.push((names[j].as_str(), vals[(vi + 1) % vals.len()].clone()));
+                    t.push((names[j].as_str(), if same_kind { v.clone() } else { vals[(vi + 1) % vals.len()].clone() }));
                 }
                 to_lib(&V::dict(&t))
             };
